@@ -1,6 +1,6 @@
 
 // ===== appended by /verif (cfg(kani) / cfg(besok_jsonpath_rust_verif) only): index arithmetic without precondition (C08, C11) =====
-#[cfg(any(kani, besok_jsonpath_rust_verif))]
+#[cfg(any(kani, all(besok_jsonpath_rust_verif, feature = "vx_sel")))]
 #[allow(dead_code, unused_imports)]
 pub(crate) mod verif_kani_idx {
     use super::*;
